@@ -375,11 +375,17 @@ fn edit_record(c: &EditCase, scratch: &str, idx: usize) -> Option<Value> {
   let after = std::fs::read(format!("{dir}/{file}")).unwrap_or_default();
   let applied = up.stdout.lines().find_map(|l| l.strip_prefix("Applied ").and_then(|r| r.split(' ').next()).and_then(|n| n.parse::<usize>().ok())).unwrap_or(0);
   let _ = std::fs::remove_dir_all(&dir);
+  // tx: 1 = the node reads `,`, 2 = `]`, 100 + k = a statement (text ending in `;`) with the k-th distinct text
+  let mut stmts: Vec<&str> = p.nodes.iter().filter_map(|n| c.src.get(n.s..n.e)).filter(|t| t.ends_with(';') && t.len() > 1).collect();
+  stmts.sort();
+  stmts.dedup();
+  let t_rows: Vec<Value> = p.nodes.iter().map(|n| json!({"s": n.s, "e": n.e, "p": n.p, "ch": n.ch,
+    "tx": match c.src.get(n.s..n.e) { Some(",") => 1, Some("]") => 2,
+            Some(t) => stmts.iter().position(|x| *x == t).map(|k| 100 + k).unwrap_or(0), _ => 0 }})).collect();
   Some(json!({
     "mode": "edit", "id": c.id, "lang": util::lang_name(c.lang), "rule": c.rule, "expanded": c.expanded,
     "src": bytes(c.src.as_bytes()), "cw": char_widths(&c.src),
-    "T": p.nodes.iter().map(|n| json!({"s": n.s, "e": n.e, "p": n.p, "ch": n.ch,
-      "tx": match c.src.get(n.s..n.e) { Some(",") => 1, Some("]") => 2, _ => 0 }})).collect::<Vec<_>>(),
+    "T": t_rows,
     "exp": match c.exp { Some((a, b)) => json!([a, b]), None => json!([9, 9]) },
     "raw": raw.iter().map(|(p, d, _)| json!({"pos": p, "del": d, "ins": []})).collect::<Vec<_>>(),
     "lib": lib_edits, "lib_by_ref": lib_by_ref, "cli": cli_json, "after": bytes(&after), "after_utf8": std::str::from_utf8(&after).is_ok(),
@@ -463,6 +469,13 @@ fn edit_cases(vectors: Option<&str>, corpus: &str, rng: &mut Rng, thorough: bool
       let rule = json!({"id": "r", "language": "JavaScript", "rule": {"kind": "identifier", "regex": "^m", "inside": {"kind": "array"}}, "fix": fix});
       out.push(EditCase { id: format!("far{i}_{j}"), lang: js, ext: "js", src: src.to_string(), rule, expanded: true, exp: Some((*el, *er)) });
     }
+  }
+  // an expansion rule that names a variable of the match: the edit is widened over the next statement only when that
+  // statement reads like the matched one (expandEnd code 3)
+  for (i, src) in ["init();\ninit();\nstart();\nstop();\n", "a();\na();\na();\nb();\n", "x();\ny();\n"].iter().enumerate() {
+    let rule = json!({"id": "r", "language": "JavaScript", "rule": {"kind": "expression_statement", "pattern": "$S"},
+                      "fix": {"template": "$S", "expandEnd": {"pattern": "$S", "stopBy": "neighbor"}}});
+    out.push(EditCase { id: format!("bound{i}"), lang: js, ext: "js", src: src.to_string(), rule, expanded: true, exp: Some((0, 3)) });
   }
   // corpus: cut a pattern with one hole at a corpus site, fix wraps the hole
   let per_file = if thorough { 4 } else { 1 };
